@@ -196,6 +196,7 @@ func (r *rrun) finals() {
 }
 
 func runHistory09(c *vlib.Ctx, h *asm.History, keepPct int, keepSeed uint64) {
+	c.Step()
 	r := newRRun(c, h)
 	r.keepPct, r.keepRand = keepPct, vlib.NewRand(keepSeed)
 	r.viol = func(key, desc string) {
